@@ -25,6 +25,8 @@ package engine
 // ---- rows / fields shape (backbone of C18, C06) ----
 
 //@ spec pred rowFits(qfields storage.Fields, row *storage.Row) { row != nil && len(row.Vals) == len(qfields) }
+//@ // rows listed in allocation order (hence pairwise distinct objects)
+//@ spec pred ascRows(rows []*storage.Row) { forall i, j int :: 0 <= i && i < j && j < len(rows) ==> rows[i] < rows[j] }
 //@ spec pred rowsFit(qfields storage.Fields, rows []*storage.Row) { forall i int :: 0 <= i && i < len(rows) ==> rowFits(qfields, rows[i]) }
 
 //@ func findColumnInFieldList(selectCol sql.ColumnReference, resultCols storage.Fields) (int, error)
@@ -96,14 +98,16 @@ package engine
 
 //@ func filterRows(q sql.WhereClause, qfields storage.Fields, rows []*storage.Row) ([]*storage.Row, error)
 //@   props C05 C18
-//@   requires storage.fieldsOK(qfields) && rowsFit(qfields, rows)
+//@   requires storage.fieldsOK(qfields) && rowsFit(qfields, rows) && ascRows(rows)
 //@   modifies nothing
 //@   ensures[fit; C18] err == nil ==> rowsFit(qfields, result0) && len(result0) <= len(rows)
 //@   ensures[subset; C05] err == nil ==> forall i int :: 0 <= i && i < len(result0) ==> exists j int :: 0 <= j && j < len(rows) && result0[i] == rows[j]
 //@   ensures[all; C05] q.SearchCondition == true ==> err == nil && len(result0) == len(rows) && (forall i int :: 0 <= i && i < len(rows) ==> result0[i] == rows[i])
 //@   ensures[none; C05] q.SearchCondition == false ==> err == nil && len(result0) == 0
 //@   ensures[fresh] result0 == nil || fresh(result0)
+//@   ensures[asc; C18] err == nil ==> ascRows(result0)
 //@   loop 1 invariant (ans == nil || fresh(ans)) && len(ans) <= rangeindex + 1 && rowsFit(qfields, ans)
+//@   loop 1 invariant ascRows(ans) && (forall i int :: 0 <= i && i < len(ans) && rangeindex >= 0 ==> ans[i] <= rows[rangeindex]) && (rangeindex < 0 ==> len(ans) == 0)
 //@   loop 1 invariant forall i int :: 0 <= i && i < len(ans) ==> exists j int :: 0 <= j && j < len(rows) && ans[i] == rows[j]
 //@   loop 1 invariant q.SearchCondition == true ==> len(ans) == rangeindex + 1 && (forall i int :: 0 <= i && i <= rangeindex ==> ans[i] == rows[i])
 //@   loop 1 invariant q.SearchCondition == false ==> len(ans) == 0
@@ -132,7 +136,7 @@ package engine
 //@   trusted
 //@   requires txn == 1
 //@   modifies storeState
-//@   ensures err == nil ==> storage.fieldsOK(result1) && rowsFit(result1, result0)
+//@   ensures err == nil ==> storage.fieldsOK(result1) && rowsFit(result1, result0) && ascRows(result0)
 //@   ensures err == nil ==> (result0 == nil || fresh(result0)) && (result1 == nil || fresh(result1))
 //@   ensures err == nil ==> (forall i int :: 0 <= i && i < len(result0) ==> fresh(result0[i]) && (result0[i].Vals == nil || fresh(result0[i].Vals)))
 //@   ensures err == nil ==> (forall j int :: 0 <= j && j < len(result1) ==> fresh(result1[j]) && typeof(result1[j].Column) == typ(string))
